@@ -600,7 +600,10 @@ func genC18(t *rapid.T) C18Case {
 		}
 	}
 	userNames := []string{"hidi-config/user/keyboard/mine.toml", "hidi-config/user/gamepad/0_default.toml", "hidi-config/user/README.md",
-		"hidi-config/user/keyboard/0_default.toml", "hidi-config/user/notes/deep/x.txt", "hidi-config/user/gamepad/PS4_Controller.toml", "hidi-config/user/factory/gamepad/0_default.toml"}
+		"hidi-config/user/keyboard/0_default.toml", "hidi-config/user/notes/deep/x.txt", "hidi-config/user/gamepad/PS4_Controller.toml", "hidi-config/user/factory/gamepad/0_default.toml",
+		// names as users and their tools make them: blanks, a legacy 8-bit encoding, hidden files, editor leftovers, a long path
+		"hidi-config/user/keyboard/my board.toml", "hidi-config/user/keyboard/Ger\xe4t.toml", "hidi-config/user/gamepad/.hidden.toml", "hidi-config/user/keyboard/0_default.toml~",
+		"hidi-config/user/keyboard/0_default.toml.tmp", "hidi-config/user/пульт/конфиг.toml", "hidi-config/user/a/b/c/d/e/f/g/" + strings.Repeat("n", 120) + ".toml"}
 	for _, n := range userNames {
 		if rapid.IntRange(0, 2).Draw(t, "hasUser") == 0 {
 			c.User = append(c.User, c18File{Path: n, Data: genBytes(t, "user")})
